@@ -466,7 +466,12 @@ func checkC17(c *h.Check) {
 	c.Coverage["rule"] = fmt.Sprintf("explicit-state BFS (states = module trees by hash) from every assignment of package kinds {S1 accepted with a tag-dependent injector file, S2 accepted, F analysis fails, N no injectors but a blank import, FT fails only under -tags t} to %d package slots x prior output content chosen per slot {absent, identical, stale, identical plus trailing bytes, truncated prefix}; transitions: gen x {no option, -header_file readable, -header_file missing, -header_file naming a directory, -output_file_prefix, -tags, default-command form; in the first two steps also a 1.7 KB header and a comma-separated -tags list, which the go command refuses}, diff x {none, header, header missing, tags}, check and show x {none, tags}; gen/diff/check with patterns naming a missing or an empty directory; chained to depth %d. Reference contract evaluated on every transition: exit status rules, exact file footprint, outputs equal to generating each package alone from scratch, read-only commands leave the tree hash unchanged, diff 0/1/2.", nslots, depth)
 	c.Samples = append(c.Samples, map[string]interface{}{"initial": initial[len(initial)/2].Path, "ops": []string{"gen:header", "diff:none", "check:tags"}})
 	c.Assumptions = append(c.Assumptions, "a failing package is one whose Wire analysis fails; packages that do not type-check abort the whole load by design and are outside the alphabet", "reference output = the same binary generating the package alone from scratch (differential)")
-	if !ex.Closed {
+	if ex.Cut {
+		// the time budget ran out inside a level: levels below MaxDepthSeen are complete, the last one is not
+		c.Exhaustive = false
+		c.Coverage["budget_cut_inside_depth"] = ex.MaxDepthSeen
+		c.Coverage["exhaustive_within_depth_bound"] = false
+	} else if !ex.Closed {
 		// depth bound reached: everything within the bound was explored
 		c.Coverage["exhaustive_within_depth_bound"] = true
 	}
